@@ -290,4 +290,23 @@ PROPS["C11"] = {
     "level_note": "Externals as deterministic partial functions; engine and z3 trusted.",
 }
 
+PROPS["C15"] = {
+    "contracts": ["contracts/C15_deadlock.py"],
+    "level": "other",
+    "extra": [{"name": "C15/bounded[digraphs<=4 nodes; histories depth 4]", "kind": "bounded", "tiers": ("quick",), "cmd": ["/venv/bin/python", "native/c15_bounded.py", "4"]},
+              {"name": "C15/bounded[digraphs<=4 nodes; histories depth 5]", "kind": "bounded", "tiers": ("thorough",), "timeout": 3000, "cmd": ["/venv/bin/python", "native/c15_bounded.py", "5"]}],
+    "assumptions": ["abstract view of the graph: set of (waiter, blocking, resource) triples; whole-view statements by generalisation over an arbitrary triple",
+                    "DependencyGraph.remove_all_for_agent / remove_dependency (loops with tuple-unpacking filters) and detect_cycle (closure DFS over three mutable sets) are NOT under proof: "
+                    "bounded stand-ins (every digraph with <= 4 nodes and <= 5 edges; histories)",
+                    "victim selection (_select_deadlock_victim) and PriorityInheritance frames are covered by the bounded stand-in only",
+                    "the reference wait-for relation of the bounded stand-in is maintained from the controller's own BLOCKED/ACQUIRED answers"],
+    "trusted_base": ["injective value injections (instance axioms)", "ghost membership sets for append-only lists"],
+    "explanation": "Deductive part: add_dependency adds exactly its triple to the view (for an arbitrary triple); acquire_resource: a BLOCKED acquisition adds the wait edge "
+                   "(waiter, current owner, resource) and touches no foreign edge; the exactness obligations on successful acquire/release (only the acquirer's own wait may end) "
+                   "FAIL on the current tree — the recorded known finding. Bounded part: DFS vs reference on all small digraphs, histories of depth 4 (5 thorough) vs a "
+                   "reference wait-for relation, victim checks.",
+    "level_text": "Mostly bounded; the deductive core locates the defect (remove_all_for_agent at the two call sites). Known finding, not repaired.",
+    "level_note": "Graph maintenance loops and the DFS are outside the engine's reach; engine and z3 trusted.",
+}
+
 NOT_APPLICABLE = {}
